@@ -180,7 +180,7 @@ def top_level_items(src: str, m: str, lo: int, hi: int):
         # attributes / doc comments directly above
         while True:
             # look at the text before `start` on previous lines
-            line_start = src.rfind('\n', lo, start - 1 if start > lo else lo)
+            line_start = src.rfind('\n', lo, start if start > lo else lo)
             prev_line_start = src.rfind('\n', lo, line_start) + 1 if line_start > lo else lo
             if line_start < lo:
                 break
